@@ -182,6 +182,17 @@ func Expand(req Obj, rootField, childrenField, responseChildrenField string) Obj
 				}
 			}
 		}
+		if fin == "hold" {
+			// finalization that does not finish yet: everything stays desired, never finalized
+			for _, k := range kids {
+				if kid, _ := k.(map[string]interface{}); kid != nil {
+					children = append(children, BuildChild(kid, labels, rev, extra))
+				}
+			}
+			resp[responseChildrenField] = children
+			resp["finalized"] = false
+			return resp
+		}
 		resp[responseChildrenField] = children
 		resp["finalized"] = nObserved == 0
 		return resp
